@@ -140,6 +140,8 @@ pub fn check_packet(
         }
     }
     let (mut plain, app_mi, app_sha, app_fp) = app_model(app);
+    // index in `plain` where the mechanism's own attributes start (set below once the application part is final)
+    let mut cred_start: Option<usize> = None;
     let mut exp_mi: Option<Vec<u8>> = None; // key bytes the MI must verify under
     let mut exp_sha: Option<Vec<u8>> = None;
     let mut chosen_alg = None;
@@ -155,6 +157,7 @@ pub fn check_packet(
         }
         CredView::ShortTerm { agreed } => {
             plain.retain(|a| a.type_code() != T_USERNAME);
+            cred_start = Some(plain.len());
             plain.push(RAttr::UserName(ref_opaque(&cfg.user)));
             let key = KeySpec::ShortTerm(cfg.password.clone()).key_bytes();
             match agreed {
@@ -168,6 +171,7 @@ pub fn check_packet(
         }
         CredView::LongTerm { state, sess } => {
             plain.retain(|a| !LT_OWNED.contains(&a.type_code()));
+            cred_start = Some(plain.len());
             if let (Some(s), true) = (sess, *state != LtState::First) {
                 if s.anon {
                     plain.push(RAttr::UserHash(UserHashSpec::Bytes(user_hash_bytes(&cfg.user, &s.realm).to_vec())));
@@ -255,7 +259,18 @@ pub fn check_packet(
     };
     let exp_body: Vec<RAttr> = plain.iter().map(norm).collect();
     let got_body: Vec<RAttr> = body.iter().map(norm).collect();
-    if exp_body != got_body {
+    // the application part is ordered; the property does not fix the order among the mechanism's own attributes
+    let same = match cred_start {
+        Some(k) if got_body.len() == exp_body.len() && k <= exp_body.len() => {
+            let mut a: Vec<String> = got_body[k..].iter().map(|x| format!("{:?}", x)).collect();
+            let mut b: Vec<String> = exp_body[k..].iter().map(|x| format!("{:?}", x)).collect();
+            a.sort();
+            b.sort();
+            got_body[..k] == exp_body[..k] && a == b
+        }
+        _ => exp_body == got_body,
+    };
+    if !same {
         let tags: &'static [&'static str] = match cred {
             CredView::None => &["C13"],
             CredView::ShortTerm { .. } => &["C13", "C07"],
